@@ -71,6 +71,19 @@ StartC(s) == IF Len(s.log) = 0 \/ ~(IsEV(s.log[1]) /\ s.log[1][2] = "pipeline_st
 AfterCompleteC(s) == IF \E i \in 1..Len(s.log) : IsEV(s.log[i]) /\ s.log[i][2] = "pipeline_complete"
                      THEN {"C14.complete"} ELSE {}
 
+PayloadRepeats(P, r) == \E n \in DOMAIN P.runs[r].recnone : Len(P.runs[r].recnone[n]) > 0 \/ P.runs[r].recfalsy[n]
+(* a None inside a provenance term: some body was invoked with None *)
+RECURSIVE HasNoneLeaf(_)
+HasNoneLeaf(tm) ==
+    CASE tm[1] = "none" -> TRUE
+      [] tm[1] \in {"v", "dflt"} -> \E i \in 1..Len(tm[3]) : HasNoneLeaf(tm[3][i][2])
+      [] tm[1] = "data" -> \E i \in 1..Len(tm[4]) : HasNoneLeaf(tm[4][i][2])
+      [] OTHER -> FALSE
+PlansNone(P, r) == \/ \E n \in DOMAIN P.runs[r].plan : \E i \in 1..Len(P.runs[r].plan[n]) : P.runs[r].plan[n][i][1] = "none"
+                   \/ \E n \in DOMAIN P.runs[r].plan_it : \E a \in 1..Len(P.runs[r].plan_it[n]) :
+                          \E b \in 1..Len(P.runs[r].plan_it[n][a]) : P.runs[r].plan_it[n][a][b][1] = "none"
+                   \/ \E n \in DOMAIN P.runs[r].recnone : Len(P.runs[r].recnone[n]) > 0
+
 CheckBodyStart(P, T, sm, s, ln) ==
     LET n == ln.n
         kw == ln.kw
@@ -114,7 +127,11 @@ CheckBodyStart(P, T, sm, s, ln) ==
                        IN IF dt < nd.delay \/ dt > nd.delay + P.slack - (nd.delay * (nd.attempts - 1)) + 0
                           THEN {"C12.delay"} ELSE {}
                   ELSE {}
-    IN  invc \cup cleanc \cup inputc \cup orderc \cup pairc \cup delayc
+        (* without a reference value (T.amb): the arguments of a node embed the iteration they belong to, so a node
+           invoked more often than `attempts` times with identical arguments was executed twice in one iteration -
+           unless a plan repeats a payload (None / 0 carry no iteration index) *)
+        ambonce == IF T.amb /\ ~T.faulty /\ ~PayloadRepeats(P, ln.r) /\ cnt + 1 > nd.attempts THEN {"C04.once"} ELSE {}
+    IN  invc \cup cleanc \cup inputc \cup orderc \cup pairc \cup delayc \cup ambonce
         \cup LateC(s) \cup StartC(s) \cup AfterCompleteC(s)
 
 (* a body that is declared to run as a coroutine, in a thread or in a process must not complete inside the very
@@ -222,10 +239,16 @@ CheckReturn(P, T, sm, s, ln) ==
       \cup
       (IF kind = "error" /\ v[1] \in {"exc", "err_copy"} /\ ~T.faulty THEN {"C05.noartefact"} ELSE {})
       \cup
+      (* with or without a reference value: the returned value was not computed from a None that no node returns *)
+      (IF kind = "value" /\ ~T.faulty /\ ~PlansNone(P, ln.r) /\ HasNoneLeaf(v) THEN {"C01.value"} ELSE {})
+      \cup
       (IF T.amb THEN {}
        ELSE CASE sr[1] = "V" ->
                    IF kind = "value" THEN (IF v = sr[2] THEN {} ELSE {"C01.value"})
                    ELSE {"C05.verdict", "C01.error"} \cup (IF P.has_oneof THEN {"C10.contain"} ELSE {})
+                        (* a sub-graph that ran out of iterations fails the run although the semantics has a value
+                           (a default, or an enclosing one-of with an alternative) *)
+                        \cup (IF kind = "error" /\ v[1] = "rec_noresult" THEN {"C11.exhaust"} ELSE {})
               [] sr[1] = "F" ->
                    LET base == {c \in sr[2] : IsBaseTok(c)}
                    IN  IF kind = "value" THEN {"C05.verdict", "C01.value"}
@@ -308,6 +331,7 @@ CheckReturn(P, T, sm, s, ln) ==
 
 CheckPostRun(P, T, S, ln) ==
     (IF ~ln.stuck /\ (ln.live > 0 \/ ln.drain_steps > 50 + 20 * Len(P.ids)) THEN {"C13.drain"} ELSE {})
+    \cup (IF "pool_left" \in DOMAIN ln /\ Len(ln.pool_left) > 0 /\ ~ln.stuck THEN {"C13.quiet"} ELSE {})
     \cup (IF ln.stuck THEN {"C02.stuck"} ELSE {})
     \cup (IF ln.truncated THEN {"C02.livelock"} ELSE {})
 
